@@ -12,7 +12,7 @@ from sa.report import Ctx
 
 from .common import generic_sweeps
 
-from .cp_common import check_alldiff_coverage, check_constraint_table, check_small_semantics, check_cumulative_horizon, check_id_allocation, flattener_tags, produced_tags, shape_dispatch_falls_through, structural_len_subjects
+from .cp_common import check_alldiff_coverage, check_constraint_table, check_small_semantics, check_cumulative_horizon, check_id_allocation, check_solve_is_read_only, flattener_tags, produced_tags, shape_dispatch_falls_through, structural_len_subjects
 
 EXPLANATION = (
     "Decides structural necessary conditions of 'the CNF has exactly the CP models' on cp_encoder.py: (O1) the "
@@ -333,6 +333,9 @@ def run(ctx: Ctx):
 
     check_alldiff_coverage(ctx, "C06-O6")
     check_id_allocation(ctx, "C06-O7")
+    # the encoding of a model is a function of its variables and constraints: nothing a solve (or the flattener the
+    # encoder shares with the DFS back-end) leaves on the model may feed the next encoding
+    check_solve_is_read_only(ctx, "C06-O7")
     check_same_task(ctx, "C06-O8")
     check_partial_sum_domains(ctx, "C06-O9")
     check_circuit_universe(ctx, "C06-O11")
@@ -451,10 +454,14 @@ def _v_shape_again(tree):
     )
 
 
+def _v_flatten_memo_on_model(tree):
+    g = M.find_func(tree, "Model._flatten_sum")
+    M.replace_stmt(g, lambda s: isinstance(s, ast.Return) and M.src_has(s, "coefs"), lambda s: M.stmts("self._flat_cache = {id(expr): (coefs, const)}") + [s], count=1)
+
+
 def _v_resync_counter(tree):
     g = M.find_func(tree, "SATEncoder._create_int_var")
-    M.replace_stmt(g, lambda s: isinstance(s, ast.For) and M.src_has(s, "self._new_bool_var()"), M.stmts("self._next_bool = self.model._next_bool"))
-    M.replace_stmt(g, lambda s: M.src_is(s, "var.bool_vars = {}"), [])
+    M.replace_stmt(g, lambda s: isinstance(s, ast.Assign) and M.src_has(s.value, "IntVar(self, lb, ub, name)"), M.stmts("var = IntVar(self.model, lb, ub, name)\nself._next_bool = self.model._next_bool"))
 
 
 def _v_aux_registered(tree):
@@ -556,6 +563,7 @@ VARIANTS = [
     M.Variant("decode drops some named variables", ENC, _v_decode_other_var, "C06-O5"),
     M.Variant("encoder dispatches on shapes again (original defect)", ENC, _v_shape_again, "C06-O4"),
     M.Variant("auxiliary variables keep the model's literals and the encoder counter is re-synchronised (seed C05-D)", ENC, _v_resync_counter, "C06-O7"),
+    M.Variant("the shared flattener memoises its result on the model, and the encoder merges into it in place (seed C06-L)", "solvor/cp.py", _v_flatten_memo_on_model, "C06-O7"),
     M.Variant("auxiliary variables are registered in the model and re-encoded by the next solve (original defect)", ENC, _v_aux_registered, "C06-O7"),
     M.Variant("no_overlap skips pairs using the other task's duration (seed C06-D)", ENC, _v_skip_pairs_wrong_duration, "C06-O8"),
     M.Variant("pairwise disjunction adds task 1's duration to task 2's start", ENC, _v_disjunctive_wrong_duration, "C06-O8"),
